@@ -747,6 +747,10 @@ func gen(r *rand.Rand, i int) Case {
 		case 0, 1, 2:
 			c.Proto = "loki_json"
 			genLoki(r, &c, false)
+			if r.Intn(4) == 0 {
+				c.Damage = true // one edit in the document tree: a wrong type, a missing / repeated / renamed member, a bad timestamp text
+				flag(&c, "damaged-document")
+			}
 		case 3, 4:
 			c.Proto = "loki_pb"
 			genLoki(r, &c, true)
